@@ -16,3 +16,4 @@ Definition c_StructEnd := 11.
 Definition c_ZeroTag := 12.
 Definition c_SimpleList := 13.
 Definition c_maxSkipDepth := 512.
+Definition c_c11_failq_cap := 1.
